@@ -283,8 +283,11 @@ class Ctx:
             "wall_s": round(time.time() - self.t0, 2),
             "violations": len(self.violations),
         }
-        os.makedirs(os.path.join(VERIF, "evidence"), exist_ok=True)
-        with open(os.path.join(VERIF, "evidence", self.prop + ".json"), "w") as f:
+        # evidence describes runs against /repo itself; a run against another tree (VERIF_REPO: seeded changes, mutants) leaves
+        # its record in its work directory only
+        evdir = os.path.join(VERIF, "evidence") if REPO == "/repo" else self.work
+        os.makedirs(evdir, exist_ok=True)
+        with open(os.path.join(evdir, self.prop + ".json"), "w") as f:
             json.dump(ev, f, indent=1, default=str)
         for kid, (what, c) in sorted(self.known_hits.items()):
             log("KNOWN-FINDING: property=%s %s [%s, %d occurrence(s)]" % (self.prop, what, kid, c))
